@@ -89,7 +89,9 @@ func c20Run(w *W, removals bool) {
 	}
 	// Close may also race the adds (and the parked iterators' wake-ups): every
 	// item whose add succeeded must still be yielded before io.EOF
-	raceClose := !removals && endMode == 0 && simrt.Choose(3) == 0
+	// (under removals too: a queue that is closed while it still holds items
+	// and is then drained must not wedge an iterator)
+	raceClose := endMode == 0 && simrt.Choose(3) == 0
 	closeAt := simrt.Choose(80)
 	var its []*iterRec
 	for i := 0; i < nIters; i++ {
